@@ -2,10 +2,12 @@
 package main
 
 import (
+	"bytes"
 	"fmt"
 	"io"
 	"unicode/utf8"
 
+	"github.com/gobwas/ws"
 	"github.com/gobwas/ws/wsutil"
 
 	"verifmc/drivers"
@@ -545,6 +547,96 @@ func main() {
 							t.Outcome(fmt.Sprintf("valid=%v", want))
 							return nil
 						})
+					}
+				}
+			})
+		})
+
+		// A fragmented text message during which the caller sees a recoverable error exactly at
+		// a frame boundary (a transient transport error before the next header; an error returned
+		// once by the caller's own control handler) and simply calls Read again. Whatever the
+		// reader does on its error path, the verdict on the message stays utf8.Valid(payload).
+		r.Part("E6-recoverable-error-between-fragments", func(t *explore.T) {
+			var msgs [][]byte
+			var gen func(cur []byte, k int)
+			gen = func(cur []byte, k int) {
+				if k > 0 {
+					msgs = append(msgs, append([]byte{}, cur...))
+				}
+				if k == 3 {
+					return
+				}
+				for _, u := range units {
+					gen(append(append([]byte{}, cur...), u...), k+1)
+				}
+			}
+			gen(nil, 0)
+			errHandler := fmt.Errorf("handler: not now")
+			t.Par(len(msgs), func(mi int) {
+				msg := msgs[mi]
+				for a := 0; a <= len(msg); a++ {
+					for _, how := range []string{"transient-transport-error", "handler-error-on-ping"} {
+						for _, side := range []streams.Side{streams.Server, streams.Client} {
+							a, how, side := a, how, side
+							t.Do(func() string {
+								return fmt.Sprintf("%s text %x | %x, %s at the fragment boundary, caller reads on", side, msg[:a], msg[a:], how)
+							}, func() *explore.Fail {
+								mkf := func(i int, o byte, fin bool, p []byte) []byte {
+									return streams.Frame{H: refmodel.Hdr{Fin: fin, Op: o, Masked: side == streams.Server, Mask: streams.Masks[i%3]}, Payload: p}.Wire()
+								}
+								data := mkf(0, 1, false, msg[:a])
+								boundary := len(data)
+								if how == "handler-error-on-ping" {
+									data = append(data, mkf(1, 9, true, nil)...)
+								}
+								data = append(data, mkf(2, 0, true, msg[a:])...)
+								src := env.NewSrc(data)
+								if how == "transient-transport-error" {
+									src.HiccupAt, src.HiccupErr = boundary, env.TempErr{IsTimeout: true}
+								}
+								rd := &wsutil.Reader{Source: src, State: drivers.State(side), CheckUTF8: true}
+								fired := false
+								rd.OnIntermediate = func(h ws.Header, r io.Reader) error {
+									if how == "handler-error-on-ping" && !fired {
+										fired = true
+										return errHandler
+									}
+									return nil
+								}
+								if _, err := rd.NextFrame(); err != nil {
+									return explore.Failf("harness-first-frame", "%v", err)
+								}
+								var got []byte
+								var err error
+								buf := make([]byte, 16)
+								recovered := 0
+								for it := 0; it < 200; it++ {
+									var n int
+									n, err = rd.Read(buf)
+									got = append(got, buf[:n]...)
+									if err == errHandler || err == error(env.TempErr{IsTimeout: true}) {
+										recovered++
+										continue
+									}
+									if err != nil {
+										break
+									}
+								}
+								want := utf8.Valid(msg)
+								accepted := err == io.EOF
+								if accepted && !want {
+									return explore.Failf("invalid-text-accepted-after-recoverable-error:"+how, "payload %x delivered as valid (recovered %d time(s))", msg, recovered)
+								}
+								if accepted && !bytes.Equal(got, msg) {
+									return explore.Failf("payload-differs-after-recoverable-error:"+how, "got %x want %x", got, msg)
+								}
+								if !accepted && want && err == wsutil.ErrInvalidUTF8 {
+									return explore.Failf("valid-text-rejected-after-recoverable-error:"+how, "payload %x", msg)
+								}
+								t.Outcome(fmt.Sprintf("valid=%v accepted=%v", want, accepted))
+								return nil
+							})
+						}
 					}
 				}
 			})
